@@ -82,7 +82,7 @@ AUG_SMILES = (
 
 
 DEC_FEATURES = ("novel", "multi_index", "ring1", "branch1", "organic", "charged_h", "stereo", "big_ring", "nested")
-SMI_THEMES = ("mixed", "mixed", "kekulize", "stereo", "molgen")
+SMI_THEMES = ("mixed", "kekulize", "stereo", "molgen", "kekulize", "mixed", "decode")
 
 
 def _chunk(rng, feat, novel, pairs):
@@ -123,8 +123,8 @@ def flood_string(rng, n):
     return "".join(syms)
 
 
-def corpus(rng):
-    """Inputs of a batch of runs.  Swarm: each batch switches on a few input
+def corpus(rng, b=0):
+    """Inputs of batch number b.  Swarm: each batch switches on a few input
     features and makes its strings dense in them, so that two threads are
     likely to be inside the same rarely used code at the same time; strings
     collide on shared state (same novel symbols, same uncached (element,
@@ -139,8 +139,10 @@ def corpus(rng):
         weights.append(2)
     dec = []
     for _ in range(8):
-        n = rng.choice((3, 5, 8, 12, 20, 30))
-        s = "".join(_chunk(rng, rng.choices(feats, weights)[0], novel, pairs) for _ in range(n))
+        target = rng.choice((3, 5, 8, 12, 20, 30, 45))      # symbols, not chunks
+        s = ""
+        while s.count("[") < target:
+            s += _chunk(rng, rng.choices(feats, weights)[0], novel, pairs)
         if rng.random() < 0.2:
             s += "." + "".join(rng.choice(novel + list(gen.ORG_SYMS[:6])) for _ in range(rng.randint(1, 6)))
         if rng.random() < 0.12:
@@ -149,11 +151,12 @@ def corpus(rng):
     # the same novel symbols in every string's head: first-sight races
     dec.append("".join(novel) + "[C][Ring1][Ring1]")
     dec.append("[C]" + "".join(reversed(novel)) + "[=C][F]")
-    flood = rng.random() < 0.15
+    # themes are stratified over batch numbers (not drawn), so that every tier sees all of them
+    flood = b % 8 == 3
     if flood:
-        dec[0] = flood_string(rng, rng.choice((140, 300, 530, 700)))
+        dec[0] = flood_string(rng, rng.choice((300, 530, 700)))
         dec[1] = flood_string(rng, rng.choice((300, 530)))
-    theme = rng.choice(SMI_THEMES)
+    theme = SMI_THEMES[b % len(SMI_THEMES)]
     if theme == "kekulize":
         smi = rng.sample(AUG_SMILES, 5) + rng.sample(SMILES_CONC[:10], 3)
     elif theme == "stereo":
@@ -166,7 +169,9 @@ def corpus(rng):
         K = [gen.DEFAULT]
         m = stubs.gen_mol(rng, K, rng.choice((6, 10, 14))) if rng.random() < 0.6 else stubs.gen_aromatic_mol(rng, K)
         smi.append(m.smiles(rng))
-    p_dec = rng.choice((0.15, 0.5, 0.6, 0.9, 1.0)) if theme != "kekulize" else 0.15
+    p_dec = {"kekulize": 0.15, "decode": 1.0}.get(theme, rng.choice((0.3, 0.5, 0.6, 0.9)))
+    if flood:
+        p_dec = max(p_dec, 0.8)
     info = {"features": feats, "smiles_theme": theme, "flood": flood, "p_dec": p_dec}
     return dec, smi, info
 
@@ -186,31 +191,35 @@ def gen_spec(base_seed, i, W):
     per batch); threads, calls, flags, policy and schedule vary per run."""
     crng = random.Random("%d:schedsim:corpus:%d" % (base_seed, i // 16))
     K = gen_table(crng)
-    dec, smi, info = corpus(crng)
+    dec, smi, info = corpus(crng, i // 16)
     p_dec = info["p_dec"]
     theme = info["smiles_theme"]
     rng = random.Random("%d:schedsim:run:%d" % (base_seed, i))
     n = rng.choice((2, 2, 2, 3, 3, 4) if procs.TIER == "quick" else (2, 2, 3, 3, 4, 5, 6))
-    shared_first = rng.random() < 0.5
+    shared_first = rng.random() < 0.5     # several threads start with the very same call
     first = None
     threads = []
     for t in range(n):
         calls = []
         for j in range(rng.choice((1, 1, 2, 2, 3, 4) if procs.TIER == "quick" else (1, 2, 2, 3, 4, 6))):
             if rng.random() < p_dec:
-                x = rng.choice(dec)
-                if info["flood"] and j == 0 and rng.random() < 0.6:
+                x = rng.choice(dec[2:] if info["flood"] else dec)
+                if info["flood"] and j == 0 and rng.random() < 0.7:
                     x = dec[t % 2]
-                if shared_first and j == 0:
-                    first = first or x
-                    x = first if rng.random() < 0.7 else x
-                calls.append(("decode", x, rng.random() < 0.08, rng.random() < 0.3))
+                call = ("decode", x, rng.random() < 0.08, rng.random() < 0.3)
             else:
-                calls.append(("encode", rng.choice(smi), rng.random() < 0.6, rng.random() < 0.3))
+                call = ("encode", rng.choice(smi), rng.random() < 0.6, rng.random() < 0.3)
+            if shared_first and j == 0:
+                if first is None:
+                    first = call
+                elif rng.random() < 0.75:
+                    # same input; flags may differ (attribution on/off shares all other state)
+                    call = first if rng.random() < 0.5 else (first[0], first[1], first[2], rng.random() < 0.5)
+            calls.append(call)
         threads.append(calls)
     alone = [[W.alone_run(K, c) for c in calls] for calls in threads]
     total = sum(s for calls in alone for _, s in calls)
-    kind = rng.choice(("random", "random", "window", "window", "pct", "stall", "stall"))
+    kind = ("random", "window", "stall", "pct", "window", "stall", "random")[i % 7]     # stratified
     policy = {"kind": kind, "gran": rng.choice(("instr", "instr", "line"))}
     if kind == "stall":
         policy["c"] = rng.choice((1 / 20, 1 / 60, 1 / 200))
@@ -220,6 +229,9 @@ def gen_spec(base_seed, i, W):
         policy["change_points"] = sorted(rng.randrange(1, max(2, total)) for _ in range(d))
     else:
         policy["p"] = rng.choice((0.25, 1 / 8, 1 / 32, 1 / 128, 1 / 512))
+        # bound the expected number of context switches per run (they dominate the cost): ~4000
+        cap = (4000.0 if kind == "random" else 250.0) / max(total, 1)
+        policy["p"] = min(policy["p"], cap)
     probes = []
     seen = set()
     for calls in threads:
